@@ -6,6 +6,7 @@ import (
 	"time"
 
 	"github.com/miekg/dns"
+	"github.com/semihalev/sdns/middleware"
 )
 
 // Accessors for the C08 driver (no behaviour change).
@@ -144,4 +145,11 @@ func VerifC08EntryTimes(c *Cache, cut time.Time) (cutUntil, stored, refreshedCut
 		}
 	}
 	return
+}
+
+// VerifC08Inherit runs the real subQueryLineage.inherit(): the deriving request
+// (parent) inherits the bound of a consumed sub-query (child).
+func VerifC08Inherit(parent, child *middleware.ResponseMeta) {
+	l := subQueryLineage{parent: parent, child: child}
+	l.inherit()
 }
